@@ -9,8 +9,10 @@ import (
 	"fmt"
 	"go/constant"
 	"go/token"
+	"go/types"
 	"sort"
 	"strings"
+	"sync"
 
 	"golang.org/x/tools/go/ssa"
 
@@ -47,7 +49,7 @@ func staleAtCallersOf(m *model.Model, fn *ssa.Function, k int, depth int) (ok bo
 		for _, b := range c.Blocks {
 			for _, ins := range b.Instrs {
 				call, isCall := ins.(*ssa.Call)
-				if !isCall || call.Call.StaticCallee() != fn || len(call.Call.Args) <= k {
+				if !isCall || model.Unthunk(call.Call.StaticCallee()) != fn || len(call.Call.Args) <= k {
 					continue
 				}
 				nsites++
@@ -319,13 +321,32 @@ func staleFiniteBeforeOf(m *model.Model, fn *ssa.Function, isBase, mayBase func(
 						}
 						switch {
 						case eq && c == finite:
-							o.fin = true
+							o.fin, o.notZero, o.notInf = true, true, true
+						case eq && c == zero:
+							// known to be a zero: in particular not an infinity (`case zero, finite:`
+							// followed by a test for zero leaves finite)
+							o.fin, o.notZero, o.notInf = false, false, true
+						case eq && c == inf:
+							o.fin, o.notZero, o.notInf = false, true, false
 						case eq:
 							// known non-finite: reads are stale for sure; leave as is
 						case ne && c == zero:
 							o.notZero = true
 						case ne && c == inf:
 							o.notInf = true
+						}
+					}
+				}
+			}
+			// a predicate helper of the package that is true only for finite operands
+			// (bothFinite(x, y)): on its true edge the operands it vouches for are finite
+			if ifi, ok := b.Instrs[len(b.Instrs)-1].(*ssa.If); ok && ed.Si == 0 {
+				if call, ok := ifi.Cond.(*ssa.Call); ok {
+					if h := model.Unthunk(call.Call.StaticCallee()); h != nil && m.InDecimalPkg(h) {
+						for j := range predImpliesFinite(m, h) {
+							if j < len(call.Call.Args) && isBase(call.Call.Args[j]) {
+								o.fin, o.notZero, o.notInf = true, true, true
+							}
 						}
 					}
 				}
@@ -377,3 +398,166 @@ func staleHarmless(m *model.Model, v ssa.Value, field int) bool {
 	}
 	return true
 }
+
+// predImpliesFinite: h returns a bool and writes nothing; the set of its *Decimal parameters that
+// are finite whenever it returns true. A return contributes the parameters whose form was found
+// equal to finite on every way to it, plus the one the returned comparison itself tests
+// (return y.form == finite); a return of the constant false contributes everything.
+func predImpliesFinite(m *model.Model, h *ssa.Function) map[int]bool {
+	key := "predImpliesFinite"
+	type memoT = map[*ssa.Function]map[int]bool
+	mv, _ := m.Memo.LoadOrStore(key, memoT{})
+	memo := mv.(memoT)
+	staleMu.Lock()
+	if r, ok := memo[h]; ok {
+		staleMu.Unlock()
+		return r
+	}
+	staleMu.Unlock()
+	res := map[int]bool{}
+	done := func() map[int]bool {
+		staleMu.Lock()
+		memo[h] = res
+		staleMu.Unlock()
+		return res
+	}
+	if len(h.Blocks) == 0 || h.Signature.Results().Len() != 1 {
+		return done()
+	}
+	if b, ok := h.Signature.Results().At(0).Type().Underlying().(*types.Basic); !ok || b.Kind() != types.Bool {
+		return done()
+	}
+	finite, _ := constant.Int64Val(m.PkgConst("finite"))
+	// no stores, no calls other than pure field reads
+	for _, b := range h.Blocks {
+		for _, in := range b.Instrs {
+			switch in.(type) {
+			case *ssa.Store, ssa.CallInstruction:
+				return done()
+			}
+		}
+	}
+	paramOf := func(v ssa.Value) int {
+		for j, p := range h.Params {
+			if v == ssa.Value(p) {
+				return j
+			}
+		}
+		return -1
+	}
+	// tests `p.form == finite` in h: (block, edge on which it holds, param)
+	type tst struct {
+		b  *ssa.BasicBlock
+		si int
+		j  int
+	}
+	var tests []tst
+	cmpParam := func(v ssa.Value) (int, token.Token, bool) {
+		bo, ok := v.(*ssa.BinOp)
+		if !ok || (bo.Op != token.EQL && bo.Op != token.NEQ) {
+			return 0, 0, false
+		}
+		lf, ok := m.LoadOfDecField(stripConv(bo.X))
+		if !ok || lf.Field != m.F.Form {
+			return 0, 0, false
+		}
+		c, ok := model.ConstInt(bo.Y)
+		j := paramOf(lf.X)
+		if !ok || c != finite || j < 0 {
+			return 0, 0, false
+		}
+		return j, bo.Op, true
+	}
+	for _, b := range h.Blocks {
+		if len(b.Instrs) == 0 {
+			continue
+		}
+		if ifi, ok := b.Instrs[len(b.Instrs)-1].(*ssa.If); ok {
+			if j, op, ok := cmpParam(ifi.Cond); ok {
+				si := 0
+				if op == token.NEQ {
+					si = 1
+				}
+				tests = append(tests, tst{b, si, j})
+			}
+		}
+	}
+	all := map[int]bool{}
+	for j, p := range h.Params {
+		if m.IsDecPtr(p.Type()) {
+			all[j] = true
+		}
+	}
+	var sets []map[int]bool
+	var valueSet func(v ssa.Value, at *ssa.BasicBlock, d int) map[int]bool
+	valueSet = func(v ssa.Value, at *ssa.BasicBlock, d int) map[int]bool {
+		out := map[int]bool{}
+		if c, ok := v.(*ssa.Const); ok && c.Value != nil && c.Value.Kind() == constant.Bool && !constant.BoolVal(c.Value) {
+			for j := range all {
+				out[j] = true
+			}
+			return out
+		}
+		for _, t := range tests {
+			if (t.b.Succs[t.si] == at && len(at.Preds) == 1) || m.EdgeDominates(t.b, t.si, at) {
+				out[t.j] = true
+			}
+		}
+		if j, op, ok := cmpParam(v); ok && op == token.EQL {
+			out[j] = true
+		}
+		if ph, ok := v.(*ssa.Phi); ok && d > 0 {
+			var acc map[int]bool
+			for ei, e := range ph.Edges {
+				es := valueSet(e, ph.Block().Preds[ei], d-1)
+				// the edge itself may be the true edge of a test
+				pb := ph.Block().Preds[ei]
+				for _, t := range tests {
+					if t.b == pb && pb.Succs[t.si] == ph.Block() && pb.Succs[1-t.si] != ph.Block() {
+						es[t.j] = true
+					}
+				}
+				if acc == nil {
+					acc = es
+				} else {
+					for j := range acc {
+						if !es[j] {
+							delete(acc, j)
+						}
+					}
+				}
+			}
+			for j := range acc {
+				out[j] = true
+			}
+		}
+		return out
+	}
+	for _, b := range h.Blocks {
+		if len(b.Instrs) == 0 {
+			continue
+		}
+		r, ok := b.Instrs[len(b.Instrs)-1].(*ssa.Return)
+		if !ok || len(r.Results) != 1 {
+			continue
+		}
+		sets = append(sets, valueSet(r.Results[0], b, 3))
+	}
+	if len(sets) == 0 {
+		return done()
+	}
+	for j := range all {
+		okAll := true
+		for _, st := range sets {
+			if !st[j] {
+				okAll = false
+			}
+		}
+		if okAll {
+			res[j] = true
+		}
+	}
+	return done()
+}
+
+var staleMu sync.Mutex
